@@ -7,11 +7,16 @@ MLMOD = "m_c09"
 RUNNER = "run_c09"
 HARNESS_BIN = "c09"
 RELEASE_ALWAYS = True     # wrap-around arithmetic: debug (overflow checks) and release
-RULE = ("helper calls (u64/u32 add_slice with arbitrary start, Sum16BitWords call sequences) and protocol checksums; "
+RULE = ("helper calls (u64/u32 add_slice with arbitrary start, Sum16BitWords call sequences) and every protocol checksum function "
+        "(IPv4 header, UDP/TCP over IPv4/IPv6 from structs, header slices and slices, with_*_checksum, ICMPv4, ICMPv6 incl. "
+        "is_checksum_valid, IGMP, TransportHeader::update_checksum_*): structured header values x payload lengths 0..64 exhaustively "
+        "x {zeros, ones, random} + random to 2 kB + payloads adjusted so that the computed checksum is 0 / 0xffff x address patterns; "
+        "oracle = independent RFC 1071 computation in Python over pseudo header + header (zero checksum field) + payload; "
         "every length 0..64 exhaustively x {zeros, ones, random}, random lengths up to 2 kB, accumulators started at "
         "2^32-1-d / 2^64-1-d; a case is non-trivial when its data is not all-zero and longer than 2 bytes; distinct = distinct case lines")
 ASSUMPTIONS = ["little-endian host in the correspondence run (theorems cover both endiannesses)"]
-PROJECTION = "all printed numbers (sum, checksum, non-zero checksum, both widths)"
+PROJECTION = ("all printed numbers (sum, checksum, non-zero checksum, both widths); protocol cases: the checksum / error numbers / "
+              "reject / valid flag (the serialised header `hdr=` is compared with the oracle only)")
 
 
 def corpus():
@@ -26,7 +31,7 @@ def corpus():
         "seq s:ffff",
         "seq s:0000",
         "h64 18446744073709551615 ffffffffffffffffffffffffffffffff",
-    ]
+    ] + proto_corpus()
 
 
 def _pattern(rng, n):
@@ -83,6 +88,661 @@ def _pieces(rng, data):
     return " ".join(out)
 
 
+# ===========================================================================
+# PROTOCOL LEVEL
+# ===========================================================================
+import struct
+
+HELPER_TAGS = ("h64", "h32", "seq")
+PROTO_TAGS = ("ip4h", "udp4", "udp6", "udp4w", "udp6w", "tcp4", "tcp6", "tcp4hs", "tcp6hs", "tcp4s", "tcp6s",
+              "icmp4", "icmp6", "icmp6v", "igmp", "upd4", "upd6")
+U16 = 0xFFFF
+U32 = 0xFFFFFFFF
+
+
+# ---- the oracle: plain RFC 1071, written independently of model and crate --
+def inet_sum(b):
+    """one's complement sum of the big-endian 16 bit words, odd tail padded with 0, carries folded"""
+    if len(b) & 1:
+        b = b + b"\x00"
+    s = sum(struct.unpack(">%dH" % (len(b) // 2), b))
+    while s >> 16:
+        s = (s & 0xFFFF) + (s >> 16)
+    return s
+
+
+def inet_cksum(b):
+    return (~inet_sum(b)) & 0xFFFF
+
+
+def be16(v):
+    return struct.pack(">H", v)
+
+
+def be32(v):
+    return struct.pack(">I", v)
+
+
+def pseudo4(src, dst, proto, ulen):          # RFC 768 / RFC 9293
+    return src + dst + bytes([0, proto]) + be16(ulen)
+
+
+def pseudo6(src, dst, ulen, nh):             # RFC 8200 8.1
+    return src + dst + be32(ulen) + bytes([0, 0, 0, nh])
+
+
+def unhex(h):
+    return b"" if h == "-" else bytes.fromhex(h)
+
+
+def o_ip4h(a):
+    dscp, ecn, tl, ident, df, mf, fo, ttl, pr = [int(x) for x in a[:9]]
+    src, dst, opts = unhex(a[9]), unhex(a[10]), unhex(a[11])
+
+    def hdr(ck):
+        return (bytes([0x40 | (5 + len(opts) // 4), (dscp << 2) | ecn]) + be16(tl) + be16(ident) +
+                be16((df << 14) | (mf << 13) | fo) + bytes([ttl, pr]) + be16(ck) + src + dst + opts)
+    ck = inet_cksum(hdr(0))
+    return "ck=%d hdr=%s" % (ck, hdr(ck).hex())
+
+
+def udp_args(a):
+    return int(a[0]), int(a[1]), int(a[2]), a[3:]
+
+
+def nz(c):
+    return 0xFFFF if c == 0 else c
+
+
+def o_udp(v6, with_ctor, a, info):
+    if with_ctor:
+        sp, dp = int(a[0]), int(a[1])
+        rest = a[2:]
+    else:
+        sp, dp, length, rest = udp_args(a)
+    src, dst, p = unhex(rest[0]), unhex(rest[1]), unhex(rest[2])
+    if with_ctor:
+        limit = U16 - 8
+        length = (8 + len(p)) & 0xFFFF
+    else:
+        limit = (U32 - 8) if v6 else (U16 - 8)
+    if len(p) > limit:
+        return "err=%d,%d" % (len(p), limit)
+    ph = pseudo6(src, dst, length, 17) if v6 else pseudo4(src, dst, 17, length)
+
+    def hdr(ck):
+        return be16(sp) + be16(dp) + be16(length) + be16(ck)
+    ck = nz(inet_cksum(ph + hdr(0) + p))
+    if not with_ctor and length != 8 + len(p):
+        info["udp_length_field_inconsistent"] = info.get("udp_length_field_inconsistent", 0) + 1
+        if 8 + len(p) <= 0xFFFFFFFF:
+            ph2 = pseudo6(src, dst, 8 + len(p), 17) if v6 else pseudo4(src, dst, 17, (8 + len(p)) & 0xFFFF)
+            if nz(inet_cksum(ph2 + hdr(0) + p)) != ck:
+                info["udp_differs_from_actual_length_reading"] = info.get("udp_differs_from_actual_length_reading", 0) + 1
+    return ("ck=%d hdr=%s" % (ck, hdr(ck).hex())) if with_ctor else ("ck=%d" % ck)
+
+
+def tcp_fields(a):
+    sp, dp, seq, ack, fl, win, urg = [int(x) for x in a[:7]]
+    opts = unhex(a[7])
+
+    def hdr(ck):
+        return (be16(sp) + be16(dp) + be32(seq) + be32(ack) +
+                bytes([((5 + len(opts) // 4) << 4) | (1 if fl & 256 else 0), fl & 0xFF]) +
+                be16(win) + be16(ck) + be16(urg) + opts)
+    return hdr, a[8:]
+
+
+def o_tcp(v6, a, with_hdr=True):
+    hdr, rest = tcp_fields(a)
+    src, dst, p = unhex(rest[0]), unhex(rest[1]), unhex(rest[2])
+    hl = len(hdr(0))
+    limit = (U32 if v6 else U16) - hl
+    if len(p) > limit:
+        return "err=%d,%d" % (len(p), limit)
+    ph = pseudo6(src, dst, hl + len(p), 6) if v6 else pseudo4(src, dst, 6, hl + len(p))
+    ck = inet_cksum(ph + hdr(0) + p)
+    return ("ck=%d hdr=%s" % (ck, hdr(ck).hex())) if with_hdr else ("ck=%d" % ck)
+
+
+def tcp_raw_split(b):
+    """what a TCP receiver does with raw bytes: data offset in the high nibble of byte 12"""
+    if len(b) < 20:
+        return None
+    hl = (b[12] >> 4) * 4
+    if hl < 20 or len(b) < hl:
+        return None
+    return b[:hl], b[hl:]
+
+
+def o_tcp_raw(v6, a, whole):
+    if whole:
+        b, src, dst = unhex(a[0]), unhex(a[1]), unhex(a[2])
+        sp = tcp_raw_split(b)
+        if sp is None:
+            return "reject"
+        hdr, p = sp
+        limit = U32 if v6 else U16
+        if len(b) > limit:
+            return "err=%d,%d" % (len(b), limit)
+    else:
+        hb, src, dst, p = unhex(a[0]), unhex(a[1]), unhex(a[2]), unhex(a[3])
+        sp = tcp_raw_split(hb)
+        if sp is None:
+            return "reject"
+        hdr = sp[0]
+        limit = (U32 if v6 else U16) - len(hdr)
+        if len(p) > limit:
+            return "err=%d,%d" % (len(p), limit)
+    z = hdr[:16] + b"\x00\x00" + hdr[18:]
+    tl = len(hdr) + len(p)
+    ph = pseudo6(src, dst, tl, 6) if v6 else pseudo4(src, dst, 6, tl)
+    return "ck=%d" % inet_cksum(ph + z + p)
+
+
+def icmp4_wire(a):
+    """RFC 792 (RFC 1191 for the next-hop MTU) layout; returns (f(ck) -> header bytes, rest of args)"""
+    v = a[0]
+    if v == "unk":
+        ty, code, b = int(a[1]), int(a[2]), unhex(a[3])
+        return (lambda ck: bytes([ty, code]) + be16(ck) + b), a[4:]
+    if v in ("erep", "ereq"):
+        ty = 0 if v == "erep" else 8
+        i, q = int(a[1]), int(a[2])
+        return (lambda ck: bytes([ty, 0]) + be16(ck) + be16(i) + be16(q)), a[3:]
+    if v == "du":
+        code, mtu = int(a[1]), int(a[2])
+        rest4 = (b"\x00\x00" + be16(mtu)) if code == 4 else b"\x00\x00\x00\x00"
+        return (lambda ck: bytes([3, code]) + be16(ck) + rest4), a[3:]
+    if v == "red":
+        code, gw = int(a[1]), unhex(a[2])
+        return (lambda ck: bytes([5, code]) + be16(ck) + gw), a[3:]
+    if v == "te":
+        code = int(a[1])
+        return (lambda ck: bytes([11, code]) + be16(ck) + bytes(4)), a[2:]
+    if v == "pp":
+        code, ptr = int(a[1]), int(a[2])
+        rest4 = bytes([ptr, 0, 0, 0]) if code == 0 else bytes(4)
+        return (lambda ck: bytes([12, code]) + be16(ck) + rest4), a[3:]
+    if v in ("tsq", "tsr"):
+        ty = 13 if v == "tsq" else 14
+        i, q, o, r, t = [int(x) for x in a[1:6]]
+        return (lambda ck: bytes([ty, 0]) + be16(ck) + be16(i) + be16(q) + be32(o) + be32(r) + be32(t)), a[6:]
+    raise ValueError("icmp4 variant " + v)
+
+
+def icmp6_wire(a):
+    """RFC 4443 / RFC 4861 layout of the first 8 bytes"""
+    v = a[0]
+    if v == "unk":
+        ty, code, b = int(a[1]), int(a[2]), unhex(a[3])
+        return (lambda ck: bytes([ty, code]) + be16(ck) + b), a[4:]
+    if v == "du":
+        code = int(a[1])
+        return (lambda ck: bytes([1, code]) + be16(ck) + bytes(4)), a[2:]
+    if v == "ptb":
+        mtu = int(a[1])
+        return (lambda ck: bytes([2, 0]) + be16(ck) + be32(mtu)), a[2:]
+    if v == "te":
+        code = int(a[1])
+        return (lambda ck: bytes([3, code]) + be16(ck) + bytes(4)), a[2:]
+    if v == "pp":
+        code, ptr = int(a[1]), int(a[2])
+        return (lambda ck: bytes([4, code]) + be16(ck) + be32(ptr)), a[3:]
+    if v in ("ereq", "erep"):
+        ty = 128 if v == "ereq" else 129
+        i, q = int(a[1]), int(a[2])
+        return (lambda ck: bytes([ty, 0]) + be16(ck) + be16(i) + be16(q)), a[3:]
+    if v == "rs":
+        return (lambda ck: bytes([133, 0]) + be16(ck) + bytes(4)), a[1:]
+    if v == "ra":
+        chl, m, o, lt = [int(x) for x in a[1:5]]
+        return (lambda ck: bytes([134, 0]) + be16(ck) + bytes([chl, (m << 7) | (o << 6)]) + be16(lt)), a[5:]
+    if v == "ns":
+        return (lambda ck: bytes([135, 0]) + be16(ck) + bytes(4)), a[1:]
+    if v == "na":
+        r, so, o = [int(x) for x in a[1:4]]
+        return (lambda ck: bytes([136, 0]) + be16(ck) + bytes([(r << 7) | (so << 6) | (o << 5), 0, 0, 0])), a[4:]
+    if v == "red":
+        return (lambda ck: bytes([137, 0]) + be16(ck) + bytes(4)), a[1:]
+    raise ValueError("icmp6 variant " + v)
+
+
+def igmp_wire(a):
+    """RFC 2236 / RFC 3376 layout"""
+    v = a[0]
+    if v == "q":
+        m, g = int(a[1]), unhex(a[2])
+        return (lambda ck: bytes([0x11, m]) + be16(ck) + g), a[3:]
+    if v == "qs":
+        m, g, r, q, n = int(a[1]), unhex(a[2]), int(a[3]), int(a[4]), int(a[5])
+        return (lambda ck: bytes([0x11, m]) + be16(ck) + g + bytes([r, q]) + be16(n)), a[6:]
+    if v in ("r1", "r2", "lg"):
+        ty = {"r1": 0x12, "r2": 0x16, "lg": 0x17}[v]
+        g = unhex(a[1])
+        return (lambda ck: bytes([ty, 0]) + be16(ck) + g), a[2:]
+    if v == "r3":
+        f, n = unhex(a[1]), int(a[2])
+        return (lambda ck: bytes([0x22, 0]) + be16(ck) + f + be16(n)), a[3:]
+    if v == "unk":
+        ty, r1, r = int(a[1]), int(a[2]), unhex(a[3])
+        return (lambda ck: bytes([ty, r1]) + be16(ck) + r), a[4:]
+    raise ValueError("igmp variant " + v)
+
+
+def o_icmp4(a, with_hdr=True):
+    hdr, rest = icmp4_wire(a)
+    p = unhex(rest[0])
+    ck = inet_cksum(hdr(0) + p)
+    return ("ck=%d hdr=%s" % (ck, hdr(ck).hex())) if with_hdr else ("ck=%d" % ck), rest[1:]
+
+
+def o_icmp6(a, with_hdr=True):
+    hdr, rest = icmp6_wire(a)
+    src, dst, p = unhex(rest[0]), unhex(rest[1]), unhex(rest[2])
+    if len(p) > U32 - 8:
+        return "err=%d,%d" % (len(p), U32 - 8)
+    ck = inet_cksum(pseudo6(src, dst, 8 + len(p), 58) + hdr(0) + p)
+    return ("ck=%d hdr=%s" % (ck, hdr(ck).hex())) if with_hdr else ("ck=%d" % ck)
+
+
+def o_icmp6v(a):
+    b, src, dst = unhex(a[0]), unhex(a[1]), unhex(a[2])
+    if len(b) < 8:
+        return "reject"
+    return "valid=%d" % (1 if inet_sum(pseudo6(src, dst, len(b), 58) + b) == 0xFFFF else 0)
+
+
+def o_igmp(a):
+    hdr, rest = igmp_wire(a)
+    p = unhex(rest[0])
+    ck = inet_cksum(hdr(0) + p)
+    return "ck=%d hdr=%s" % (ck, hdr(ck).hex())
+
+
+def o_upd(v6, a, info):
+    kind, rest = a[0], a[1:]
+    if kind == "udp":
+        return o_udp(v6, False, rest, info)
+    if kind == "tcp":
+        return o_tcp(v6, rest, with_hdr=False)
+    if kind == "icmp4":
+        # ICMPv4 has no pseudo header: the addresses are not used
+        hdr, r2 = icmp4_wire(rest)
+        return "ck=%d" % inet_cksum(hdr(0) + unhex(r2[2]))
+    if kind == "icmp6":
+        if not v6:
+            return "err=icmpv6-in-ipv4"
+        return o_icmp6(rest, with_hdr=False)
+    raise ValueError(kind)
+
+
+def oracle(case, info):
+    a = case.split()
+    t, a = a[0], a[1:]
+    if t == "ip4h":
+        return o_ip4h(a)
+    if t in ("udp4", "udp6"):
+        return o_udp(t == "udp6", False, a, info)
+    if t in ("udp4w", "udp6w"):
+        return o_udp(t == "udp6w", True, a, info)
+    if t in ("tcp4", "tcp6"):
+        return o_tcp(t == "tcp6", a)
+    if t in ("tcp4hs", "tcp6hs"):
+        return o_tcp_raw(t == "tcp6hs", a, False)
+    if t in ("tcp4s", "tcp6s"):
+        return o_tcp_raw(t == "tcp6s", a, True)
+    if t == "icmp4":
+        return o_icmp4(a)[0]
+    if t == "icmp6":
+        return o_icmp6(a)
+    if t == "icmp6v":
+        return o_icmp6v(a)
+    if t == "igmp":
+        return o_igmp(a)
+    if t in ("upd4", "upd6"):
+        return o_upd(t == "upd6", a, info)
+    raise ValueError("tag " + t)
+
+
+# ---- generators -----------------------------------------------------------
+def _u(rng, bits):
+    k = rng.below(6)
+    if k == 0:
+        return 0
+    if k == 1:
+        return (1 << bits) - 1
+    if k == 2:
+        return rng.below(4)
+    if k == 3:
+        return (1 << bits) - 1 - rng.below(4)
+    return rng.next() & ((1 << bits) - 1)
+
+
+def _addr(rng, n):
+    k = rng.below(6)
+    if k == 0:
+        return bytes(n)
+    if k == 1:
+        return b"\xff" * n
+    if k == 2:
+        return (bytes([192, 168, 1, rng.below(256)]) if n == 4 else
+                bytes.fromhex("20010db8") + bytes(11) + bytes([rng.below(256)]))
+    return rng.bytes(n)
+
+
+def _opts(rng, maxwords=10):
+    k = rng.below(5)
+    n = 0 if k == 0 else (maxwords if k == 1 else rng.below(maxwords + 1))
+    pat = rng.below(4)
+    b = bytes(4 * n) if pat == 0 else (b"\xff" * (4 * n) if pat == 1 else rng.bytes(4 * n))
+    return b
+
+
+def _payloads(rng, big):
+    """payload plan of one function: every length 0..64 x {zeros, ones, random}, then random lengths"""
+    out = []
+    for n in range(0, 65):
+        out.append(bytes(n))
+        out.append(b"\xff" * n)
+        out.append(rng.bytes(n))
+    for _ in range(260 if not big else 6000):
+        n = rng.range(0, 2048) if rng.chance(1, 6) else rng.range(0, 130)
+        out.append(_pattern(rng, n))
+    return out
+
+
+def g_ip4h(rng):
+    o = _opts(rng)
+    return "ip4h %d %d %d %d %d %d %d %d %d %s %s %s" % (
+        _u(rng, 6), _u(rng, 2), _u(rng, 16), _u(rng, 16), rng.below(2), rng.below(2), _u(rng, 13),
+        _u(rng, 8), _u(rng, 8), hx(_addr(rng, 4)), hx(_addr(rng, 4)), hx(o))
+
+
+def g_udp_hdr(rng, p):
+    k = rng.below(4)
+    length = (8 + len(p)) & 0xFFFF if k < 2 else (_u(rng, 16) if k == 2 else max(0, 8 + len(p) + rng.range(-3, 3)) & 0xFFFF)
+    return "%d %d %d" % (_u(rng, 16), _u(rng, 16), length)
+
+
+def g_tcp_hdr(rng):
+    return "%d %d %d %d %d %d %d %s" % (_u(rng, 16), _u(rng, 16), _u(rng, 32), _u(rng, 32), _u(rng, 9),
+                                        _u(rng, 16), _u(rng, 16), hx(_opts(rng)))
+
+
+def g_tcp_raw(rng):
+    """raw TCP header bytes: valid data offset mostly, reserved bits and checksum field random"""
+    k = rng.below(12)
+    doff = rng.range(5, 15)
+    b = bytearray(rng.bytes(doff * 4) if rng.chance(3, 4) else (b"\xff" * (doff * 4) if rng.chance(1, 2) else bytes(doff * 4)))
+    b[12] = (doff << 4) | (b[12] & 0x0F)
+    if k == 0:
+        b[12] = (rng.below(5) << 4) | (b[12] & 0x0F)      # data offset too small
+    elif k == 1:
+        b = b[:rng.below(len(b))]                          # cut short
+    return bytes(b)
+
+
+ICMP4_VARIANTS = ("unk", "erep", "ereq", "du", "red", "te", "pp", "tsq", "tsr")
+ICMP6_VARIANTS = ("unk", "du", "ptb", "te", "pp", "ereq", "erep", "rs", "ra", "ns", "na", "red")
+IGMP_VARIANTS = ("q", "qs", "r1", "r2", "r3", "lg", "unk")
+
+
+def g_icmp4_type(rng, v=None):
+    v = v or rng.choice(ICMP4_VARIANTS)
+    if v == "unk":
+        return "unk %d %d %s" % (_u(rng, 8), _u(rng, 8), hx(_addr(rng, 4)))
+    if v in ("erep", "ereq"):
+        return "%s %d %d" % (v, _u(rng, 16), _u(rng, 16))
+    if v == "du":
+        return "du %d %d" % (rng.below(16), _u(rng, 16))
+    if v == "red":
+        return "red %d %s" % (rng.below(4), hx(_addr(rng, 4)))
+    if v == "te":
+        return "te %d" % rng.below(2)
+    if v == "pp":
+        return "pp %d %d" % (rng.below(3), _u(rng, 8))
+    return "%s %d %d %d %d %d" % (v, _u(rng, 16), _u(rng, 16), _u(rng, 32), _u(rng, 32), _u(rng, 32))
+
+
+def g_icmp6_type(rng, v=None):
+    v = v or rng.choice(ICMP6_VARIANTS)
+    if v == "unk":
+        return "unk %d %d %s" % (_u(rng, 8), _u(rng, 8), hx(_addr(rng, 4)))
+    if v == "du":
+        return "du %d" % rng.below(7)
+    if v == "ptb":
+        return "ptb %d" % _u(rng, 32)
+    if v == "te":
+        return "te %d" % rng.below(2)
+    if v == "pp":
+        return "pp %d %d" % (rng.below(11), _u(rng, 32))
+    if v in ("ereq", "erep"):
+        return "%s %d %d" % (v, _u(rng, 16), _u(rng, 16))
+    if v == "ra":
+        return "ra %d %d %d %d" % (_u(rng, 8), rng.below(2), rng.below(2), _u(rng, 16))
+    if v == "na":
+        return "na %d %d %d" % (rng.below(2), rng.below(2), rng.below(2))
+    return v
+
+
+def g_igmp_type(rng, v=None):
+    v = v or rng.choice(IGMP_VARIANTS)
+    if v == "q":
+        return "q %d %s" % (_u(rng, 8), hx(_addr(rng, 4)))
+    if v == "qs":
+        return "qs %d %s %d %d %d" % (_u(rng, 8), hx(_addr(rng, 4)), _u(rng, 8), _u(rng, 8), _u(rng, 16))
+    if v in ("r1", "r2", "lg"):
+        return "%s %s" % (v, hx(_addr(rng, 4)))
+    if v == "r3":
+        return "r3 %s %d" % (hx(_addr(rng, 2) if False else rng.bytes(2)), _u(rng, 16))
+    return "unk %d %d %s" % (_u(rng, 8), _u(rng, 8), hx(_addr(rng, 4)))
+
+
+def _adjust(case_fn, p, info=None):
+    """choose the first payload word so that the computed checksum becomes 0 (the complete sum folds to
+    0xffff before complementing): compute the checksum with the word 0 using the Python oracle and store it
+    there (the word sits at an even offset of the summed byte string)."""
+    if len(p) < 2:
+        return p
+    p0 = b"\x00\x00" + p[2:]
+    r = oracle(case_fn(p0), {})
+    if not r.startswith("ck="):
+        return p
+    ck = int(r.split()[0][3:])
+    # for the UDP functions the oracle already maps 0 to 0xffff; ck == 0xffff then means "sum + 0xffff": fine
+    return be16(ck) + p[2:]
+
+
+def gen_proto(rng, tier):
+    big = tier == "thorough"
+    cases = []
+
+    def emit(mk):
+        """mk(payload) -> case line; runs the payload plan plus checksum-0 adjusted payloads"""
+        for p in _payloads(rng, big):
+            cases.append(mk(p))
+        for _ in range(40 if not big else 600):
+            p = rng.bytes(rng.range(2, 70))
+            fixed = {}
+
+            def once(q):
+                # the header part must be the same for the probe and the final case
+                if "c" not in fixed:
+                    fixed["c"] = mk(b"@@PAYLOAD@@")
+                return fixed["c"].replace(hx(b"@@PAYLOAD@@"), hx(q))
+            cases.append(once(_adjust(once, p)))
+
+    for _ in range(700 if not big else 20000):
+        cases.append(g_ip4h(rng))
+    emit(lambda p: "udp4 %s %s %s %s" % (g_udp_hdr(rng, p), hx(_addr(rng, 4)), hx(_addr(rng, 4)), hx(p)))
+    emit(lambda p: "udp6 %s %s %s %s" % (g_udp_hdr(rng, p), hx(_addr(rng, 16)), hx(_addr(rng, 16)), hx(p)))
+    emit(lambda p: "udp4w %d %d %s %s %s" % (_u(rng, 16), _u(rng, 16), hx(_addr(rng, 4)), hx(_addr(rng, 4)), hx(p)))
+    emit(lambda p: "udp6w %d %d %s %s %s" % (_u(rng, 16), _u(rng, 16), hx(_addr(rng, 16)), hx(_addr(rng, 16)), hx(p)))
+    emit(lambda p: "tcp4 %s %s %s %s" % (g_tcp_hdr(rng), hx(_addr(rng, 4)), hx(_addr(rng, 4)), hx(p)))
+    emit(lambda p: "tcp6 %s %s %s %s" % (g_tcp_hdr(rng), hx(_addr(rng, 16)), hx(_addr(rng, 16)), hx(p)))
+    emit(lambda p: "tcp4hs %s %s %s %s" % (hx(g_tcp_raw(rng)), hx(_addr(rng, 4)), hx(_addr(rng, 4)), hx(p)))
+    emit(lambda p: "tcp6hs %s %s %s %s" % (hx(g_tcp_raw(rng)), hx(_addr(rng, 16)), hx(_addr(rng, 16)), hx(p)))
+    emit(lambda p: "tcp4s %s %s %s" % (hx(g_tcp_raw(rng) + p), hx(_addr(rng, 4)), hx(_addr(rng, 4))))
+    emit(lambda p: "tcp6s %s %s %s" % (hx(g_tcp_raw(rng) + p), hx(_addr(rng, 16)), hx(_addr(rng, 16))))
+    emit(lambda p: "icmp4 %s %s" % (g_icmp4_type(rng), hx(p)))
+    emit(lambda p: "icmp6 %s %s %s %s" % (g_icmp6_type(rng), hx(_addr(rng, 16)), hx(_addr(rng, 16)), hx(p)))
+    emit(lambda p: "igmp %s %s" % (g_igmp_type(rng), hx(p)))
+    # every variant of the three message enums at least a few times with short payloads
+    for v in ICMP4_VARIANTS:
+        for code_rep in range(20):
+            cases.append("icmp4 %s %s" % (g_icmp4_type(rng, v), hx(_pattern(rng, rng.below(12)))))
+    for code in range(16):
+        cases.append("icmp4 du %d %d %s" % (code, _u(rng, 16), hx(rng.bytes(rng.below(9)))))
+    for v in ICMP6_VARIANTS:
+        for code_rep in range(20):
+            cases.append("icmp6 %s %s %s %s" % (g_icmp6_type(rng, v), hx(_addr(rng, 16)), hx(_addr(rng, 16)),
+                                               hx(_pattern(rng, rng.below(12)))))
+    for v in IGMP_VARIANTS:
+        for code_rep in range(20):
+            cases.append("igmp %s %s" % (g_igmp_type(rng, v), hx(_pattern(rng, rng.below(12)))))
+    # is_checksum_valid: correct messages, the 0x0000/0xffff alternative, corrupted, random, too short
+    for _ in range(1500 if not big else 40000):
+        src, dst = _addr(rng, 16), _addr(rng, 16)
+        n = rng.range(0, 2048) if rng.chance(1, 12) else rng.range(0, 70)
+        p = _pattern(rng, n)
+        hdrf, _r = icmp6_wire(g_icmp6_type(rng).split())
+        k = rng.below(10)
+        if k == 0 and len(p) >= 2:
+            # make the computed checksum 0: store the checksum (computed with payload word 0) in the payload
+            p0 = b"\x00\x00" + p[2:]
+            c0 = inet_cksum(pseudo6(src, dst, 8 + len(p0), 58) + hdrf(0) + p0)
+            p = be16(c0) + p[2:]
+        ck = inet_cksum(pseudo6(src, dst, 8 + len(p), 58) + hdrf(0) + p)
+        msg = bytearray(hdrf(ck) + p)
+        if k == 1 and ck in (0, 0xFFFF):
+            msg[2:4] = be16(ck ^ 0xFFFF)
+        elif k == 0 and ck == 0 and rng.chance(1, 2):
+            msg[2:4] = b"\xff\xff"                      # -0 instead of +0: still folds to 0xffff
+        elif k == 2:
+            i = rng.below(len(msg))
+            msg[i] ^= 1 << rng.below(8)                 # single bit error: must be rejected
+        elif k == 3:
+            i = rng.below(len(msg))
+            msg[i] = (~msg[i]) & 0xFF
+        elif k == 4:
+            msg = bytearray(rng.bytes(rng.range(0, 40)))
+        elif k == 5:
+            msg = msg[:rng.below(9)]                    # shorter than / equal to the minimum
+        elif k == 6 and len(msg) >= 12:
+            # swap two 16-bit words: sum-invariant, must still be accepted
+            msg[4:6], msg[8:10] = msg[8:10], msg[4:6]
+        elif k == 7:
+            src = _addr(rng, 16)                        # other source address
+        cases.append("icmp6v %s %s %s" % (hx(bytes(msg)), hx(src), hx(dst)))
+    # TransportHeader::update_checksum_ipv4 / _ipv6
+    for _ in range(900 if not big else 20000):
+        n = rng.range(0, 300) if rng.chance(1, 5) else rng.range(0, 40)
+        p = _pattern(rng, n)
+        kind = rng.choice(("udp", "tcp", "icmp4", "icmp6"))
+        h = {"udp": lambda: g_udp_hdr(rng, p), "tcp": lambda: g_tcp_hdr(rng),
+             "icmp4": lambda: g_icmp4_type(rng), "icmp6": lambda: g_icmp6_type(rng)}[kind]()
+        if rng.chance(1, 2):
+            cases.append("upd4 %s %s %s %s %s" % (kind, h, hx(_addr(rng, 4)), hx(_addr(rng, 4)), hx(p)))
+        else:
+            cases.append("upd6 %s %s %s %s %s" % (kind, h, hx(_addr(rng, 16)), hx(_addr(rng, 16)), hx(p)))
+    return cases
+
+
+def proto_corpus():
+    a4, b4 = "c0a8012a", "0a000001"
+    a6, b6 = "20010db8000000000000000000000001", "fe80000000000000020000fffe000009"
+    z6 = "00" * 16
+    big = lambda n: hx(bytes(n))
+    c = [
+        "ip4h 10 1 1234 4660 1 0 291 64 17 %s %s 01020304" % (a4, b4),
+        "ip4h 0 0 0 0 0 0 0 0 0 00000000 00000000 -",
+        "ip4h 63 3 65535 65535 1 1 8191 255 255 ffffffff ffffffff " + "ff" * 40,
+        "udp4 1234 53 11 %s %s 010203" % (a4, b4),
+        "udp6 1234 53 11 %s %s 010203" % (a6, b6),
+        # the length field does not describe the payload (field 8, one payload byte)
+        "udp4 0 0 8 00000000 00000000 01",
+        "udp6 0 0 8 %s %s 01" % (z6, z6),
+        # sum of everything = 0xffff: computed 0 is replaced by 0xffff
+        "udp4 0 0 8 00000000 00000000 ffde",
+        "udp4w 0 0 00000000 00000000 ffdc",
+        # limits of the range checks
+        "udp4 1 2 65535 %s %s %s" % (a4, b4, big(65527)),
+        "udp4 1 2 65535 %s %s %s" % (a4, b4, big(65528)),
+        "udp4w 1 2 %s %s %s" % (a4, b4, big(65527)),
+        "udp4w 1 2 %s %s %s" % (a4, b4, big(65528)),
+        "udp6w 1 2 %s %s %s" % (a6, b6, big(65528)),
+        # accepted by calc_checksum_ipv6_raw although no 16 bit length field can describe it
+        "udp6 1 2 0 %s %s %s" % (a6, b6, big(65528)),
+        "tcp4 80 40000 305419896 2271560481 346 65535 7 020405b4 %s %s 010203" % (a4, b4),
+        "tcp6 80 40000 305419896 2271560481 346 65535 7 020405b4 %s %s 010203" % (a6, b6),
+        "tcp4 1 2 3 4 0 5 6 - %s %s %s" % (a4, b4, big(65515)),
+        "tcp4 1 2 3 4 0 5 6 - %s %s %s" % (a4, b4, big(65516)),
+        "tcp4 1 2 3 4 0 5 6 %s %s %s %s" % ("01" * 40, a4, b4, big(65475)),
+        "tcp4 1 2 3 4 0 5 6 %s %s %s %s" % ("01" * 40, a4, b4, big(65476)),
+        "tcp6 1 2 3 4 0 5 6 - %s %s %s" % (a6, b6, big(65516)),
+        "tcp4hs 00509c401234567887654321615affffabcd0007020405b4 %s %s 010203" % (a4, b4),
+        "tcp6hs 00509c401234567887654321615affffabcd0007020405b4 %s %s 010203" % (a6, b6),
+        # more than 64 kB: the 32 bit length of the IPv6 pseudo header has a non-zero high half
+        "tcp6hs %s %s %s %s" % ("00" * 12 + "50" + "00" * 7, a6, b6, big(65516)),
+        "icmp6 ereq 1 2 %s %s %s" % (a6, b6, big(65528)),
+        "icmp6v %s %s %s" % ("8000" + "5280" + "00" * 65532, a6, b6),
+        "tcp4hs %s %s %s %s" % ("00" * 12 + "50" + "00" * 7, a4, b4, big(65516)),
+        "tcp4hs %s %s %s %s" % ("00" * 12 + "50" + "00" * 7, a4, b4, big(65515)),
+        "tcp4s 00509c401234567887654321615affffabcd0007020405b4010203 %s %s" % (a4, b4),
+        "tcp6s 00509c401234567887654321615affffabcd0007020405b4010203 %s %s" % (a6, b6),
+        "tcp4s %s %s %s" % ("00" * 12 + "50" + "00" * 7 + "00" * 65515, a4, b4),
+        "tcp4s %s %s %s" % ("00" * 12 + "50" + "00" * 7 + "00" * 65516, a4, b4),
+        "tcp6s %s %s %s" % ("00" * 12 + "50" + "00" * 7 + "00" * 65516, a6, b6),
+        "tcp4s 00509c401234567887654321 %s %s" % (a4, b4),
+        "icmp4 tsq 1 2 305419896 2271560481 4294967295 -",
+        "icmp4 ereq 4660 1 686921",
+        # everything zero: the sum is 0, the checksum 0xffff
+        "icmp4 erep 0 0 -",
+        "icmp4 erep 0 0 000000",
+        "icmp4 unk 0 0 00000000 -",
+        "icmp4 du 4 1500 4500",
+        "icmp4 pp 0 20 4500",
+        "icmp6 ereq 4660 1 %s %s 686921" % (a6, b6),
+        "icmp6 ra 64 1 0 1800 %s %s 0101000102030405" % (a6, b6),
+        "icmp6 na 1 1 1 %s %s %s" % (a6, b6, "ff" * 16),
+        # computed checksum 0x0000
+        "icmp6 unk 255 189 00000000 %s %s -" % (z6, z6),
+        "icmp6v 8000b6d712340001686921 %s %s" % (a6, b6),
+        "icmp6v 8000b6d612340001686921 %s %s" % (a6, b6),
+        "icmp6v ffbd000000000000 %s %s" % (z6, z6),
+        "icmp6v ffbdffff00000000 %s %s" % (z6, z6),
+        "icmp6v ffbd0001 %s %s" % (z6, z6),
+        "igmp qs 100 e0000001 10 125 1 0a000007",
+        "igmp r3 0000 1 04000000e0000001",
+        "igmp q 0 00000000 -",
+        "upd4 tcp 80 40000 305419896 2271560481 346 65535 7 020405b4 %s %s 010203" % (a4, b4),
+        "upd4 icmp6 red %s %s -" % (a4, b4),
+        "upd4 udp 1 2 11 %s %s %s" % (a4, b4, big(65528)),
+        "upd6 icmp6 ereq 4660 1 %s %s 686921" % (a6, b6),
+        "upd6 icmp4 ereq 4660 1 %s %s 686921" % (a6, b6),
+        "upd6 udp 1 2 11 %s %s 010203" % (a6, b6),
+    ]
+    # payloads of 64 kB and more: only the IPv6 functions accept them; the 32 bit length of the pseudo
+    # header then has a non-zero upper half (a length narrowed to 16 bits is wrong exactly here)
+    hdr20 = "00" * 12 + "50" + "00" * 7
+    for n in (65536, 65537, 70001):
+        pl = ("ff" * n) if n != 65537 else ("a5" * n)
+        c.append("tcp6 1 2 3 4 0 5 6 - %s %s %s" % (a6, b6, pl))
+        c.append("tcp6hs %s %s %s %s" % (hdr20, a6, b6, pl))
+        c.append("tcp6s %s %s %s" % (hdr20 + pl, a6, b6))
+        c.append("icmp6 ereq 1 2 %s %s %s" % (a6, b6, pl))
+        c.append("udp6 1 2 0 %s %s %s" % (a6, b6, pl))
+        c.append("upd6 tcp 1 2 3 4 0 5 6 - %s %s %s" % (a6, b6, pl))
+        msg = bytes([129, 0, 0, 0, 0, 1, 0, 2]) + bytes.fromhex(pl)
+        ck = inet_cksum(pseudo6(bytes.fromhex(a6), bytes.fromhex(b6), len(msg), 58) + msg)
+        c.append("icmp6v %s %s %s" % ((msg[:2] + be16(ck) + msg[4:]).hex(), a6, b6))
+        # IPv4 functions must refuse them
+        c.append("tcp4 1 2 3 4 0 5 6 - %s %s %s" % (a4, b4, pl))
+        c.append("tcp4s %s %s %s" % (hdr20 + pl, a4, b4))
+    return c
+
+
 def gen_cases(rng, tier):
     cases = []
     big = tier == "thorough"
@@ -110,11 +770,16 @@ def gen_cases(rng, tier):
         n = rng.range(0, 80)
         d = _pattern(rng, n)
         cases.append("seq " + _pieces(rng, d))
+    cases.extend(gen_proto(rng.fork(), tier))
     return cases
 
 
 def _nontrivial(case):
     parts = case.split()
+    if parts[0] in PROTO_TAGS:
+        # some non-zero data beyond the tag: longest hex argument has a non-zero byte and > 2 bytes
+        big = max(parts[1:], key=len)
+        return len(big) > 4 and big.strip("0-") != ""
     data = "".join(p.split(":")[-1] for p in parts[1:] if p != "-") if parts[0] == "seq" else parts[-1]
     data = data.replace("-", "")
     return len(data) > 4 and data.strip("0") != ""
@@ -125,9 +790,17 @@ def compare(ctx, cases, impl, model_lines):
     hist = {"h64": 0, "h32": 0, "seq": 0, "len<=8": 0, "len<=64": 0, "len>64": 0, "start!=0": 0}
     seen = set()
     nontriv = 0
+    info = {}
     for i, c in enumerate(cases):
         parts = c.split()
-        hist[parts[0]] += 1
+        hist[parts[0]] = hist.get(parts[0], 0) + 1
+        if parts[0] in PROTO_TAGS:
+            if c not in seen:
+                seen.add(c)
+                if _nontrivial(c):
+                    nontriv += 1
+            _compare_proto(i, c, impl, model_lines, corr, orc, hist, info)
+            continue
         if parts[0] != "seq":
             ln = 0 if parts[2] == "-" else len(parts[2]) // 2
             if parts[1] != "0":
@@ -160,5 +833,36 @@ def compare(ctx, cases, impl, model_lines):
                         break
             elif il.startswith("PANIC") or il.startswith("CRASH"):
                 orc.append((i, "%s: %s" % (prof, il), None))
+    hist.update(info)
     return {"corr_mismatch": corr, "oracle_fail": orc, "hist": hist, "nontrivial": nontriv,
-            "samples": [cases[0], cases[len(cases) // 2], cases[-1]]}
+            "samples": [x[:300] for x in (cases[0], cases[len(cases) // 2], cases[-1])]}
+
+
+def _proj(line):
+    """correspondence projection of a protocol line: drop the serialised header"""
+    return " ".join(t for t in line.split() if not t.startswith("hdr="))
+
+
+def _compare_proto(i, c, impl, model_lines, corr, orc, hist, info):
+    want = oracle(c, info)
+    m = sp = None
+    if model_lines is not None:
+        ml = model_lines[i]
+        m, sp = (ml.split(" | ") + [None])[:2] if " | " in ml else (ml, None)
+    # payload length bucket / outcome histogram
+    w0 = want.split()[0]
+    kind = "err" if w0.startswith("err=") else ("reject" if w0 == "reject" else ("valid" if w0.startswith("valid=") else "ck"))
+    hist["proto:" + kind] = hist.get("proto:" + kind, 0) + 1
+    if w0 in ("ck=0", "ck=65535"):
+        hist["proto:" + w0] = hist.get("proto:" + w0, 0) + 1
+    if w0.startswith("valid="):
+        hist["proto:" + w0] = hist.get("proto:" + w0, 0) + 1
+    for prof, lines in impl.items():
+        il = lines[i]
+        if m is not None and _proj(il) != m:
+            corr.append((i, "%s: impl '%s' model '%s'" % (prof, il[:200], m)))
+        if il != want:
+            orc.append((i, "%s: %s gives '%s', the RFC computation gives '%s'" % (prof, c.split()[0], il[:200], want[:200]), None))
+    # the extracted Coq specification must agree with the Python oracle as well (guards the spec itself)
+    if sp is not None and sp != _proj(want):
+        orc.append((i, "Coq spec '%s' differs from the Python RFC computation '%s'" % (sp, _proj(want)), None))
